@@ -14,6 +14,7 @@ increase (effective = `r` attribute if present, else previous + 1).
 -/
 import XlModel.Lemmas.Readers
 import XlModel.Lemmas.ReadersLoad
+import XlModel.Lemmas.ReadersPlace
 import XlModel.ReadersState
 import XlModel.ReadersRender
 import XlModel.Lemmas.Grid4
@@ -361,6 +362,76 @@ hidden in the cached worksheet (`GetRowVisible` false, as `Rows().GetRowOpts()` 
 theorem rless_hidden_kept :
     afterLoad [⟨0, false, [⟨0, 0, ['a'], false, false⟩]⟩, ⟨0, true, [⟨0, 0, ['b'], false, false⟩]⟩]
       (fun s' => rowVisible s' 1 && !rowVisible s' 2) = true := by decide
+
+/-- C04, placement of `<c>` elements without `r` (readers agree, row level, full strength over
+the invariant): in every row whose effective columns ascend — cells with `r`, cells without `r`
+and empty cells in any mixture — the reference `checkRow` writes into the cell at any index is
+the running column `Rows.rowXMLHandler` has reached at that element. The running column has
+advanced over every element before it, also over the empty ones the streaming reader does not
+append (`cellStep` keeps `cellCol` in its non-live branch); value, formula and style of the
+cell are kept. -/
+theorem streaming_placement_eq_cached (n : Nat) (pre : List Cell) (c : Cell) (post : List Cell)
+    (h : ColsAsc 0 (pre ++ c :: post)) :
+    (crAssign n 0 (pre ++ c :: post))[pre.length]? =
+      some { c with col := effCol (pre.foldl cellStep ⟨0, []⟩).cellCol c,
+                    row := if c.col ≠ 0 then c.row else n } :=
+  crAssign_at_stream n pre c post ⟨0, []⟩ h
+
+/-- C04, the same at the level of what is read: for every such row (row slot `idx` as
+`checkSheet` leaves it), `checkRow` succeeds, and what `Rows.Columns` returns at index `j` for
+the row as written is what `GetCellValue` finds at column `j + 1` of the cached row, and what
+`Rows.Columns` returns for the cached row. -/
+theorem streaming_row_agrees_cached_row (idx : Nat) (r : Row) (hnum : r.r = idx + 1)
+    (hin : idx + 1 ≤ Facts.TotalRows) (h : ColsAsc 0 r.cells)
+    (hr : RefsOK (idx + 1) r.cells) (hg : InGridCells 0 r.cells) :
+    ∃ r', checkRow1 idx r = .ok r' ∧ ∀ j,
+      ((rowCells r.cells)[j]?).getD [] = getCellValue [r'] (j + 1) (idx + 1) ∧
+      ((rowCells r'.cells)[j]?).getD [] = ((rowCells r.cells)[j]?).getD [] := by
+  obtain ⟨cells', hok, hasc, hexp, hval, _⟩ := checkRow1_spec idx r h hr hg
+  refine ⟨{ r with cells := cells' }, hok, fun j => ⟨?_, ?_⟩⟩
+  · have hra : RowsAsc 0 [{ r with cells := cells' }] := by
+      refine ⟨?_, hasc, trivial⟩
+      simp [effRow, hnum]
+    have hex : Explicit [{ r with cells := cells' }] := by
+      refine ⟨?_, ?_, ?_, trivial⟩
+      · simp [hnum]
+      · simpa [hnum] using hin
+      · simpa [hnum] using hexp
+    have hg := gcvRows_eq_value [{ r with cells := cells' }] 0 (j + 1) (idx + 1) hra hex
+    have hlast : lastNum [{ r with cells := cells' }] = idx + 1 := by simp [lastNum, hnum]
+    have hrow : rowAt 0 [{ r with cells := cells' }] (idx + 1) = cells' := by
+      simp [rowAt, effRow, hnum]
+    unfold getCellValue
+    rw [hlast, if_neg (Nat.lt_irrefl _), hg, hrow, hval, rowCells_get r.cells h j]
+  · show ((rowCells cells')[j]?).getD [] = _
+    rw [rowCells_get cells' hasc j, rowCells_get r.cells h j, hval]
+
+/-- the hypothesis is needed: when a reference steps backwards (C1 then A1) the streaming
+reader continues from the reference (the next cell without `r` is B), `checkRow` from the
+column after the greatest position so far (E) — outside the representation invariant the two placements differ. -/
+theorem placement_needs_ascending :
+    let cs : List Cell := [⟨3, 1, ['x'], false, false⟩, ⟨1, 1, ['y'], false, false⟩,
+      ⟨0, 0, ['z'], false, false⟩]
+    ¬ ColsAsc 0 cs ∧
+    effCol ((cs.take 2).foldl cellStep ⟨0, []⟩).cellCol ⟨0, 0, ['z'], false, false⟩ = 2 ∧
+    ((crAssign 1 0 cs)[2]?).map Cell.col = some 5 := by
+  refine ⟨?_, by decide, by decide⟩
+  simp [ColsAsc, effCol]
+
+/-- non-vacuity of the placement theorems: r-less valued cell, r-less empty cell, empty cell
+with `r`, r-less valued cell — the last one is placed at F by both -/
+theorem nonvacuous_placement :
+    let pre : List Cell := [⟨2, 4, ['a'], false, false⟩, ⟨0, 0, [], false, false⟩,
+      ⟨5, 4, [], false, false⟩]
+    let c : Cell := ⟨0, 0, ['b'], false, false⟩
+    ColsAsc 0 (pre ++ [c]) ∧ RefsOK 4 (pre ++ [c]) ∧ InGridCells 0 (pre ++ [c]) ∧
+    effCol (pre.foldl cellStep ⟨0, []⟩).cellCol c = 6 ∧
+    (crAssign 4 0 (pre ++ [c]))[3]? = some ⟨6, 4, ['b'], false, false⟩ ∧
+    rowCells (pre ++ [c]) = [[], ['a'], [], [], [], ['b']] := by
+  refine ⟨?_, ?_, ?_, by decide, by decide, by decide⟩
+  · simp [ColsAsc, effCol]
+  · intro x hx; simp at hx; rcases hx with rfl | rfl | rfl | rfl <;> simp
+  · simp [InGridCells, effCol, Facts.MaxColumns]
 
 /-- from "caching succeeds, keeps the invariant, makes references explicit and preserves the
 grid" to what the readers show before and after caching -/
